@@ -37,13 +37,15 @@ MAX_REPORTS_PER_SIG = 3
 UNITS = ['', '', '', 'sec', 'bytes']
 
 
-def fam_with_unit(cid_base, name, typ, unit, extra_sample=None):
+def fam_with_unit(cid_base, name, typ, unit, extra_sample=None, empty=False):
     full = name + ('_' + unit if unit else '')
     snames = [full + s for s in base.SUFFIXES[typ]] or [full]
     if typ == 'summary' or typ == 'stateset':
         snames = [full] + [s for s in snames if s != full]
     if typ in ('histogram', 'gaugehistogram'):
         snames = [full + '_bucket'] + snames          # two buckets: same sample name twice
+    if empty:
+        snames = []             # a family without samples (no children yet)
     if extra_sample:
         snames.append(extra_sample)
     return {'name': full, 'type': typ, 'help': 'help of ' + full, 'unit': unit,
@@ -57,6 +59,8 @@ def rich_collector(rng, cid):
         c = {'id': cid, 'kind': 'builtin', 'cls': cls, 'name': name}
         if cls in ('Gauge', 'Summary', 'Histogram') and rng.random() < 0.5:
             c['unit'] = rng.choice(['sec', 'bytes'])
+        if rng.random() < 0.35:
+            c['labels'] = ['l']      # labelled parent without children: its family has no samples
         return c
     k = rng.choice([1, 1, 2, 2, 3])
     fams = []
@@ -65,7 +69,7 @@ def rich_collector(rng, cid):
         if rng.random() < 0.04:
             extra = rng.choice(['weird', 'x', 'target_info'])      # a sample the collector does not claim
         fams.append(fam_with_unit(cid * 100 + j * 10, rng.choice(base.ALPHABET), rng.choice(base.TYPES),
-                                  rng.choice(UNITS), extra))
+                                  rng.choice(UNITS), extra, empty=rng.random() < 0.2))
     r = rng.random()
     if r < 0.82:
         d = [[f['name'], f['type']] for f in fams]
@@ -139,6 +143,15 @@ FIXED = [
 
 
 KEPT_CORPUS = [
+    # families that have no samples to begin with must be omitted like any family left empty: a labelled Counter and a
+    # labelled Histogram without children, a custom collector with an empty family next to a non-empty one
+    {'ad': False, 'ti': None, 'collectors': [
+        {'id': 1, 'kind': 'builtin', 'cls': 'Counter', 'name': 'c', 'labels': ['l']},
+        {'id': 2, 'kind': 'builtin', 'cls': 'Histogram', 'name': 'h', 'labels': ['l'], 'unit': 'sec'},
+        {'id': 3, 'kind': 'custom', 'describe': [['e', 'gauge'], ['g', 'gauge']],
+         'families': [fam_with_unit(300, 'e', 'gauge', '', empty=True), fam_with_unit(310, 'g', 'gauge', '')]}],
+     'ops': [['r', 1], ['r', 2], ['r', 3]], 'watch': [[1, ['c_total', 'g']]],
+     'namesets': [['c_total'], ['c'], ['h_sec_bucket', 'h_sec'], ['g'], ['e'], ['e', 'g', 'c_created']]},
     # the known finding: no describe(), auto_describe off -> claims nothing -> restricted_registry(['x']) cannot find it
     {'ad': False, 'ti': None, 'collectors': [
         {'id': 1, 'kind': 'custom', 'describe': None, 'families': [fam_with_unit(100, 'x', 'gauge', '')]}],
